@@ -1,5 +1,48 @@
 """C19 - safety analysis is total on every pickle that decompiles."""
-from .. import vmfamily
+import struct
+
+from .. import rec_vm, tv, vmfamily
+
+# global names outside the typed domain of the VM specification (they reach the analyses through the decompiled program's
+# import statements and through the report): non-ASCII, a lone surrogate (the pickler writes names with surrogatepass),
+# quotes, blanks, a newline, the empty name, a very long name
+EXOTIC = ["Caf\udce9Model", "Ünïcode", "中文", "\U0001f600", "a b", "it's", 'q"q', "x\ny", "", "back\\slash",
+          "n" * 300, "eval", "tab\tname"]
+MODS = ["verif_sink", "os", "collections", "not_a_real_module", "m\udce9dule", "pkg.sub"]
+
+
+def _u(s):
+    raw = s.encode("utf-8", "surrogatepass")
+    return (b"\x8c" + bytes([len(raw)]) if len(raw) < 256 else b"X" + struct.pack("<I", len(raw))) + raw
+
+
+def exotic_pickles():
+    out = []
+    for m in MODS:
+        for n in EXOTIC:
+            sg = b"\x80\x04" + _u(m) + _u(n) + b"\x93"
+            out.append(sg + b".")                                  # the global is the result
+            out.append(sg + b")R.")                                # called
+            out.append(sg + b"0K\x01.")                            # resolved and dropped
+    return out
+
+
+def exotic(ctx):
+    """-> (failures, evaluations): C19's clauses on pickles with exotic global names, judged by TLC on spec/TotalTrace.tla"""
+    recs = []
+    for data in exotic_pickles():
+        f = rec_vm.record_fick(data, want=("dec", "chk"))
+        recs.append({"id": len(recs), "hex": data.hex(), "dec_ok": bool(f["dec"]["ok"]), "chk": f["chk"]})
+    verdicts = tv.validate(ctx, "TotalTrace", recs)
+    failures = []
+    for r in recs:
+        v = verdicts[r["id"]]["v"]
+        if v not in ("ok", "na", "refused"):
+            failures.append({"clause": v, "opset": ["F:exotic-global-name"], "detail": "exotic global name hex=" + r["hex"][:100],
+                             "replay_obj": {"property": "C19", "clause": v, "record": {"hex": r["hex"], "prog": [], "tag": "exotic-name", "exotic": r}}})
+    ctx.notes.append(f"pickles with global names outside the typed domain (non-ASCII, lone surrogate, quotes, blanks, newline, empty, long): "
+                     f"{len(recs)} judged by spec/TotalTrace.tla, {sum(1 for r in recs if r['dec_ok'])} decompile, {len(failures)} violate")
+    return failures, len(recs)
 
 
 def clause(v, rec):
@@ -11,10 +54,21 @@ def run(ctx):
         ctx, "C19", clause,
         nontrivial=lambda v, r: r["fick"]["dec"]["ok"] and v["nev"] > 0,
         rule="typed opcode programs enumerated by TLC over the labelled vocabulary incl. attribute names that "
-             "rules special-case (eval, open, load, getitem, ...) + natural pickles; non-trivial = decompilable "
-             "and at least one import/call event",
-        want=("dec", "chk"))
+             "rules special-case (eval, open, load, getitem, ...) + natural pickles + pickles with exotic global names "
+             "(judged without the reference machine); non-trivial = decompilable and at least one import/call event",
+        want=("dec", "chk"), pre=exotic)
 
 
 def replay(ctx, path):
+    import json
+    obj = json.load(open(path))
+    if obj.get("record", {}).get("tag") == "exotic-name":
+        data = bytes.fromhex(obj["record"]["hex"])
+        f = rec_vm.record_fick(data, want=("dec", "chk"))
+        v = tv.validate(ctx, "TotalTrace", [{"id": 0, "hex": data.hex(), "dec_ok": bool(f["dec"]["ok"]), "chk": f["chk"]}])[0]["v"]
+        if v not in ("ok", "na", "refused"):
+            print(f"VIOLATION property=C19 replay={path}   # {v}")
+            return 1
+        print("C19: replayed case now holds")
+        return 0
     return vmfamily.replay(ctx, path, clause)
